@@ -23,7 +23,7 @@ def describe(tier):
                 % DEPTH[tier],
         'bounds': 'alphabet 5, BFS to fixpoint (cap %d states), all 5^k sequences k<=%d' % (STATE_CAP, DEPTH[tier]),
         'assumptions': ['hidden state can only live in the EDB object, the token objects or the scheme/config object (canon covers these three)'],
-        'must_be_nonzero': ['bfs-fixpoint', 'sequences', 'inputs-checked', 'inputs-checked-bytearray-ids', 'default-config-checked', 'config-variants-checked', 'second-index'],
+        'must_be_nonzero': ['bfs-fixpoint', 'sequences', 'inputs-checked', 'inputs-checked-bytearray-ids', 'refused-builds-checked', 'default-config-checked', 'config-variants-checked', 'second-index'],
     }
 
 
@@ -220,6 +220,9 @@ def run_inputs(r, seed, p, tier):
     # identifiers are byte strings; the library accepts any bytes-like object, and a mutable one (bytearray) is the one a callee
     # could change in place
     variants = [(q, 'bytes') for q in profs] + [(q, 'bytearray') for q in profs if sum(q) <= (4 if tier == 'quick' else 6)]
+    # a build that is REFUSED part-way (the last identifier of the last keyword is a str, not bytes) is still "building an index":
+    # the caller's database, as it was handed in, is what the caller gets back
+    variants += [(q, 'refused') for q in profs if 2 <= sum(q) <= (6 if tier == 'quick' else 9)]
     for prof, idtype in variants:
         case = {'scheme': name, 'label': label, 'cfg': cfg, 'profile': prof, 'inputs': True}
         if idtype != 'bytes':
@@ -229,8 +232,25 @@ def run_inputs(r, seed, p, tier):
         if idtype == 'bytearray':
             db = {w: [bytearray(i) for i in v] for w, v in db.items()}
         det.seed_case(seed, PROPERTY, 'inputs', name, label, tuple(prof))
+        if idtype == 'refused':
+            lastw = list(db)[-1]
+            db[lastw] = list(db[lastw][:-1]) + [db[lastw][-1].hex()]
         db0, cfg0 = copy.deepcopy(db), copy.deepcopy(cfg1)
         order0 = [(w, list(v)) for w, v in db.items()]
+        if idtype == 'refused':
+            r['evaluations'] += 1
+            try:
+                sch_ = L.SSEScheme(cfg1)
+                sch_.EDBSetup(sch_.KeyGen(), db)
+                r.count('str-identifier-accepted')
+            except Exception:
+                r.count('refused-builds-checked')
+                if db != db0 or [(w, list(v)) for w, v in db.items()] != order0:
+                    r.v(PROPERTY, name, 'input-mutated', 'database/after-refused-setup', case, 'database unchanged by the refused build', 'database differs from its deep copy')
+                    r.outcome('db-mutated')
+                if cfg1 != cfg0:
+                    r.v(PROPERTY, name, 'input-mutated', 'config-dict/after-refused-setup', case, cfg0, cfg1)
+            continue
         r['evaluations'] += 1
         r['states'] += 1
         try:
